@@ -73,7 +73,8 @@ func TestC09_Params(t *testing.T) {
 		doc := jv.VObj([]jv.Member{{K: "a", V: subj}, {K: "s", V: jv.VStr("a,b,,aab,a")}, {K: "arr", V: jv.VArr([]jv.Val{jv.VInt(1), jv.VInt(2), jv.VInt(3)})}})
 		big := func(label string) ast.Expr { return ast.Lit(jv.VInt(gen.HostileInt(t, n))) }
 		var e ast.Expr
-		kind := rapid.IntRange(0, 13).Draw(t, "kind")
+		kind := rapid.IntRange(0, 15).Draw(t, "kind")
+		var floatDoc *run.Node
 		label := ""
 		switch kind {
 		case 0, 1:
@@ -120,6 +121,21 @@ func TestC09_Params(t *testing.T) {
 		case 10:
 			e = ast.Call("to_number", ast.A(ast.RawS(gen.Pick(t, "bignum", bigNumTexts))))
 			label = "to_number-text"
+		case 14, 15:
+			// arithmetic on Go floats of extreme magnitude (the float paths
+			// have their own code): quotients beyond 2^53, subnormals, the
+			// largest finite values
+			fl := func(label string) run.Node {
+				return run.Node{T: gen.Pick(t, label+"-kind", []string{"float64", "float64", "float32"}), S: gen.Pick(t, label, []string{"1e300", "1e17", "1.7976931348623157e308", "5e-324", "9223372036854775808", "9007199254740993",
+					"11", "0.3", "3", "0.1", "1e-300", "-7", "2.5", "1e38", "3.4028234663852886e38", "1e-45", "0", "-0", "18446744073709551616", "4503599627370497"})}
+			}
+			d := run.Node{T: "object", K: []string{"a", "b", "arr"}, A: []run.Node{fl("fa"), fl("fb"), {T: "array", A: []run.Node{fl("f1"), fl("f2"), fl("f3")}}}}
+			floatDoc = &d
+			op := gen.Pick(t, "fop", []string{"//", "%", "/", "*", "+", "-"})
+			e = gen.Pick(t, "fform", []ast.Expr{ast.Bin(op, ast.F("a"), ast.F("b")), ast.Bin(op, ast.F("b"), ast.F("a")), ast.Bin(op, ast.Bin(op, ast.F("a"), ast.F("b")), ast.F("a")),
+				ast.Call("sum", ast.A(ast.F("arr"))), ast.Call("avg", ast.A(ast.F("arr"))), ast.Call("sort", ast.A(ast.F("arr"))), ast.Call("floor", ast.A(ast.Bin(op, ast.F("a"), ast.F("b")))),
+				ast.Call("map", ast.Ref(ast.Bin(op, ast.Cur(), ast.F("b"))), ast.A(ast.F("arr"))), ast.Call("to_string", ast.A(ast.Bin(op, ast.F("a"), ast.F("b")))), ast.Bin("==", ast.Bin(op, ast.F("a"), ast.F("b")), ast.F("a"))})
+			label = "float-extremes"
 		case 12, 13:
 			// a call that can only fail (another argument is invalid) must fail
 			// before it does anything sized by the huge one: widths of 2^28..2^31
@@ -150,6 +166,9 @@ func TestC09_Params(t *testing.T) {
 		}
 		text := ast.Render(e)
 		node := run.FromVal(doc)
+		if floatDoc != nil {
+			node = *floatDoc
+		}
 		c.Case()
 		call := run.Call{API: "search", Expr: text, Doc: &node}
 		run.Watch(c, "params", call)
